@@ -6,7 +6,7 @@ old one exactly by the modifications `parse_token` makes (re-parent the walked-o
 `right`) and contains the two new nodes represents the new tree.
 -/
 import Garnish.Lemmas.ParserTree
-import Garnish.Lemmas.ParserInv
+import Garnish.Lemmas.ParserSteps
 
 namespace Garnish.Spec
 open Garnish Garnish.Gen Garnish.Model.Parser
@@ -52,9 +52,6 @@ def bottomOK (pr : Nat → Nat) (q : Nat) (rtl : Bool) : Tree → Prop
 structure NewNodes (arr : Array ParseNode) (n ko ka : Nat) (par : Option Nat) (tlv : Nat) : Prop where
   op : ∃ on, arr[n]? = some on ∧ on.parent = par ∧ on.left = some tlv ∧ on.right = some (n + 1) ∧ tokPos on = ko
   leaf : ∃ ln, arr[n + 1]? = some ln ∧ ln.parent = some n ∧ ln.left = none ∧ ln.right = none ∧ tokPos ln = ka
-
-def setParent (v : Option Nat) (nd : ParseNode) : ParseNode := { nd with parent := v }
-def setRight (v : Option Nat) (nd : ParseNode) : ParseNode := { nd with right := v }
 
 theorem newOp_isTreeAt {arr : Array ParseNode} {n ko ka : Nat} {par : Option Nat} {tlv : Nat} {s : Tree}
     (hnew : NewNodes arr n ko ka par tlv) (hs : IsTreeAt arr (some n) (some tlv) s) :
